@@ -229,10 +229,38 @@ def run_test_driver(binp, scenarios, wd, timeout=1200, env_extra=None, name="drv
         left = t_end - time.time()
         if left <= 0:
             raise Infra("driver %s: time budget exhausted" % name)
-        try:
-            r = subprocess.run([binp, "-test.run", "TestDrive", "-test.timeout", "%ds" % int(left)], env=env, capture_output=True, text=True, timeout=left + 30)
-        except subprocess.TimeoutExpired:
+        # the process is watched: a scenario that makes no progress for `stall` seconds (a deadlock - of the code under test or of the
+        # harness on changed code - that a virtual-time bubble cannot get out of) is abandoned like a crashed one, the others still run
+        stall = float(os.environ.get("VERIF_SCENARIO_STALL", "30" if TIER == "quick" else "180"))
+        errp = os.path.join(wd, name + "-stderr.txt")
+        with open(errp, "w") as ef:
+            pr = subprocess.Popen([binp, "-test.run", "TestDrive", "-test.timeout", "%ds" % int(left)], env=env, stdout=subprocess.DEVNULL, stderr=ef)
+            hung = False
+            last_size, last_change = -1, time.time()
+            while True:
+                try:
+                    pr.wait(timeout=2)
+                    break
+                except subprocess.TimeoutExpired:
+                    pass
+                sz = os.path.getsize(errp)
+                if sz != last_size:
+                    last_size, last_change = sz, time.time()
+                if time.time() - last_change > stall or time.time() > t_end + 30:
+                    hung = True
+                    pr.kill()
+                    pr.wait()
+                    break
+
+        class _R:
+            pass
+        r = _R()
+        r.stderr = open(errp, errors="replace").read()
+        r.returncode = pr.returncode if not hung else -9
+        if hung and time.time() > t_end + 30:
             raise Infra("driver %s timed out" % name)
+        if hung:
+            r.stderr += "\nHUNG: no progress for %ds, scenario abandoned\n" % int(stall)
         done = set()
         open_id = None
         for l in r.stderr.splitlines():
@@ -244,7 +272,11 @@ def run_test_driver(binp, scenarios, wd, timeout=1200, env_extra=None, name="drv
             break
         if open_id is None:
             raise Infra("driver %s failed outside a scenario (rc=%d):\n%s" % (name, r.returncode, r.stderr[-3000:]))
-        crashed[open_id] = r.stderr[-1500:]
+        if r.returncode == -9 and "HUNG:" in r.stderr[-200:]:
+            HUNG_SCENARIOS.append(open_id)
+            log("scenario %s made no progress and was abandoned (not a verdict)" % open_id)
+        else:
+            crashed[open_id] = r.stderr[-1500:]
         skip.extend(sorted(done))
         skip.append(open_id)
     traces = {}
@@ -272,6 +304,8 @@ def run_test_driver(binp, scenarios, wd, timeout=1200, env_extra=None, name="drv
 
 
 FLAKY_CRASHES = []
+HUNG_SCENARIOS = []
+TIER = "quick"
 
 
 def known_findings(prop):
@@ -352,6 +386,8 @@ def main_wrapper(fn):
     ap.add_argument("--tier", default=os.environ.get("VERIF_TIER", "quick"), choices=["quick", "thorough"])
     ap.add_argument("--replay", default=None)
     args = ap.parse_args()
+    global TIER
+    TIER = args.tier
     try:
         rc = fn(args.tier, args.replay)
     except Infra as e:
